@@ -768,6 +768,11 @@ DEFAULT_CFG = {
 def model_specs(draw, **kw):
   cfg = dict(DEFAULT_CFG)
   cfg.update(kw)
+  if cfg['reuse_const'] and not cfg.get('dim_choices') and draw(st.integers(0, 2)) == 0:
+    # a sub-population with few distinct sizes, so that constants of equal
+    # shape (hence re-used / shared ones) are common
+    cfg['dim_choices'] = [2, 4]
+    cfg['reuse_odds'] = 1
   names = _Names()
   nsg = draw(st.integers(min(cfg.get('min_subgraphs', 1), cfg['max_subgraphs']), cfg['max_subgraphs']))
   sgs = []
